@@ -25,8 +25,9 @@ def check(ctx):
     nh = V.need(V.call_nodes("httping.normalizeHostPort"), "normalizeHostPort(...) in redirect")
     hs = [n for n in V.cfg.nodes if isinstance(n.ast, ast.Assign) and dotted(n.ast.targets[0]) == "hostname"]
     # a defaulting assignment from the requester must lie on every path where splits.hostname is falsy
-    dflt = [n for n in hs if "self.requester.hostname" in src(n.ast.value)]
-    inline = [n for n in hs if isinstance(n.ast.value, ast.BoolOp) and isinstance(n.ast.value.op, ast.Or) and "self.requester.hostname" in src(n.ast.value)]
+    sv = lambda e, n: src(V.sym(e, n))
+    dflt = [n for n in hs if "self.requester.hostname" in sv(n.ast.value, n)]
+    inline = [n for n in hs if isinstance(n.ast.value, ast.BoolOp) and isinstance(n.ast.value.op, ast.Or) and "self.requester.hostname" in sv(n.ast.value, n)]
     guard = V.tests(lambda t: src(t) in ("not hostname", "hostname is None", "not splits.hostname", "splits.hostname is None"))
     ok = bool(inline) or (bool(dflt) and bool(guard) and all(V.dominated_by_edge([d], guard[0], "T") for d in dflt) and
                           V.cfg.always_reaches([guard[0].id], [d.id for d in dflt] + [b for b, lab in V.cfg.succ[guard[0].id] if lab == "F"], ends=[nh[0].id])
@@ -35,17 +36,17 @@ def check(ctx):
               "urlsplit(location).hostname is None for a relative Location; it flows into normalizeHostPort, which dereferences it: "
               "AttributeError instead of following the redirect on the same host")
     sch = [n for n in V.cfg.nodes if isinstance(n.ast, ast.Assign) and dotted(n.ast.targets[0]) == "scheme"]
-    ok = any("self.requester.scheme" in src(n.ast.value) for n in sch)
+    ok = any("self.requester.scheme" in sv(n.ast.value, n) for n in sch)
     ctx.check(ok, "D7-relative", rd, "redirect: empty scheme of a relative Location defaults to the current request's scheme",
               "an empty scheme maps to http: an https request redirected to a relative Location would be treated as a downgrade (or "
               "silently downgraded)")
     prt = [n for n in V.cfg.nodes if isinstance(n.ast, ast.Assign) and dotted(n.ast.targets[0]) == "port"]
-    ctx.check(any("self.requester.port" in src(n.ast.value) for n in prt), "D7-relative", rd, "redirect: port defaults to the current request's port for a relative Location", "")
+    ctx.check(any("self.requester.port" in sv(n.ast.value, n) for n in prt), "D7-relative", rd, "redirect: port defaults to the current request's port for a relative Location", "")
     # the current connection's port stands in only for a Location without a host; an absolute Location without an explicit
     # port means the default port of its scheme
     ctx.rule("T8-absolute", "self.requester.port is used only under the `Location has no hostname` condition")
     for n in prt:
-        uses = [x for x in ast.walk(n.ast.value) if isinstance(x, ast.Attribute) and src(x) == "self.requester.port"]
+        uses = [x for x in ast.walk(n.ast.value) if isinstance(x, ast.Attribute) and sv(x, n) == "self.requester.port"]
         if not uses:
             continue
         okp = bool(guard) and V.dominated_by_edge([n], guard[0], "T")
@@ -58,12 +59,14 @@ def check(ctx):
         ctx.check(okp, "T8-absolute", n.ast, "redirect: %s only when the Location has no hostname" % src(n.ast),
                   "an absolute Location without an explicit port (http://host/path) must resolve to the default port of its scheme; "
                   "inheriting the current connection's port sends the redirected request to the wrong server")
-    dg = V.tests(lambda t: src(t) == "self.requester.scheme == 'https' and scheme != 'https'")
+    NOT_HTTPS = {"scheme != 'https'", "not secured", "scheme.lower() != 'https'", "not scheme.lower() == 'https'", "not scheme == 'https'"}
     raises = [n for n in V.cfg.nodes if n.kind == "raise"]
+    dgr = [r for r in raises if "self.requester.scheme == 'https'" in V.symfacts(r) and (V.symfacts(r) & NOT_HTTPS)]
+    dg = [t for t in V.cfg.nodes if t.kind == "test" and "requester.scheme == 'https'" in src(t.ast.test) and
+          any(V.dominated_by_edge([r], t, "T") for r in dgr)]
     cl = V.call_nodes("self.connector.close")
     ro = V.call_nodes("self.connector.reopen")
-    ok = bool(dg) and bool(cl) and bool(ro) and any(V.dominated_by_edge([r], dg[0], "T") for r in raises) and \
-        V.dominated_by_edge(cl + ro, dg[0], "F")
+    ok = bool(dg) and bool(cl) and bool(ro) and V.dominated_by_edge(cl + ro, dg[0], "F")
     ctx.check(ok, "T1-downgrade", rd, "connector swap only after `requester.scheme == 'https' and scheme != 'https'` raised or passed",
               "an https request must never be re-issued over plain http")
     tr = V.call_nodes("self.transmit")
